@@ -2839,7 +2839,8 @@ impl Scenario for Faults {
              ONE entry of the stream-fault catalogue ({} entries + {} stave-level entries, cycled so that every entry \
              recurs >= 40 times in the quick tier) applied at a seeded applicable position (RDH / word occurrence, \
              any link, any packet after the link's first two) with a seeded boundary value; the faulty stream is run \
-             in all check modes (4, or 5 with its-stave for stave-mode content), each with -E n and under its own \
+             in all check modes (4, or 5 with its-stave for stave-mode content; for half of the stave-mode cases once more \
+             with the stave filter of the faulty link and a trigger period configured), each with -E n and under its own \
              seeded schedule. Entries: RDH sanity fields (E10), packet loss / duplication / adjacent reordering and \
              page / stop / orbit / trigger / FEE edits (E11, E12, E110, E111), status-word and data-word IDs and \
              reserved bits (E30, E40, E50, E60, E70, E990, E991, E992), continuation / orbit / BC / trigger relations \
@@ -2915,6 +2916,27 @@ impl Scenario for Faults {
                     swarm_schedule(&mut sp, &mut rng, 300 + st.total_packets() as u64 * 12);
                 }
                 runs.push((m, sp));
+            }
+            if stave && rng.chance(1, 2) {
+                // stave checks once more, restricted to the stave that carries the fault and with a trigger
+                // period configured (whatever its value: [E45] messages are extra findings) - every other rule
+                // stays in force
+                let w = walk(&input);
+                let fee_at = |off: u64| w.pkts.iter().find(|p| (p.off as u64) <= off && off < (p.off + p.rdh.offset_next as usize) as u64).map(|p| p.rdh.fee_id & 0b0111_0000_0011_1111);
+                let fees: Vec<Option<u16>> = applied.expects.iter().map(|e| fee_at(e.offset)).collect();
+                if let Some(Some(f0)) = fees.first().copied() {
+                    if fees.iter().all(|f| *f == Some(f0)) {
+                        let mut parts = s(CHECK_MODES[4]);
+                        parts.extend(Filter::Stave(f0).args());
+                        parts.extend(s(&["-p", &rng.range(1, 3563).to_string()]));
+                        parts.extend(s(&["-E", &exit_code.to_string()]));
+                        let mut sp = specgen::spec(im.clone(), &parts, input.clone());
+                        if rng.chance(2, 3) {
+                            swarm_schedule(&mut sp, &mut rng, 300 + st.total_packets() as u64 * 12);
+                        }
+                        runs.push((4, sp));
+                    }
+                }
             }
             let expects = applied
                 .expects
